@@ -13,6 +13,8 @@ grep -E '^(VIOLATION|KNOWN-FINDING|ERROR|OBLIGATION|SUMMARY|NOTE|UNDECIDED)' $OU
 mkdir -p $OUT/replay/C02
 rm -f $OUT/c02_bounded.json
 C02_STRIDE=$STRIDE C02_OUT=$OUT/c02_bounded.json replay/overlay_test.sh internal/validator findings/C02/path_denotation_test.go TestReplayC02PathDenotation -v > $OUT/c02_bounded.log 2>&1; TRC=$?
+replay/overlay_test.sh internal/validator findings/C02/path_denotation_test.go TestReplayC02ValueKinds -v > $OUT/c02_kinds.log 2>&1; KRC=$?
+export KRC
 python3 - "$TIER" "$RC" "$TRC" "$START" <<'PY'
 import json, sys, time, os, re
 tier, rc, trc, start = sys.argv[1], int(sys.argv[2]), int(sys.argv[3]), float(sys.argv[4])
@@ -40,7 +42,21 @@ else:
                    "replay":{"attempted":True,"confirmed":True,"how":"each entry is a path, a focus node of the fixed graph in findings/C02/path_denotation_test.go and the number of values the documented meaning gives; the real validator (go test -overlay) counts differently"}}, open(path,'w'), indent=1)
         print(f"VIOLATION property=C02 replay={path}")
         viol = 1
+klog = open(OUT + '/c02_kinds.log').read() if os.path.exists(OUT + '/c02_kinds.log') else ''
+kfails = [re.sub(r'^\s*zz_replay_test.go:\d+:\s*', '', l) for l in klog.split('\n') if 'C02 violated:' in l]
+kran = re.search(r'^(ok|FAIL|--- (PASS|FAIL))', klog, re.M) is not None
+if not kran:
+    print("ERROR the value-kinds suite did not run (see out/c02_kinds.log)"); rcx = 2
+elif kfails:
+    path = os.path.abspath(OUT + '/replay/C02/witness_value_kinds.json')
+    json.dump({"property":"C02","obligation":"witness:path_denotation_test.go/TestReplayC02ValueKinds","kind":"witness","failing_inputs":kfails[:60],
+               "replay":{"attempted":True,"confirmed":True,"how":"each entry is a path, a focus node and a value constraint on which the working tree (go test -overlay) disagrees with the denotation of the path"}}, open(path,'w'), indent=1)
+    print(f"VIOLATION property=C02 replay={path}")
+    viol = 1
+elif int(os.environ.get('KRC','0')) != 0:
+    print("ERROR the value-kinds suite failed without naming a violation (see out/c02_kinds.log)"); rcx = 2
 cov = ev.get('coverage', {})
+cov['value_kinds_suite'] = {"what":"containsAll / containsSome / in / exactCount with value lists derived from the denotation, on the 55 paths of one and two steps from three focus nodes, and two containsSome constraints on different paths under one or","ran":kran,"failures":len(kfails),"label":"bounded witness search - never counted as proved"}
 cov['bounded'] = None if b is None else {"what":"real validator vs independent evaluator of path denotation (composition, union, converse; one value per reached node) through minCount/maxCount on three focus nodes of a 7-node graph","paths":b['paths'],"of_all_paths_up_to_three_steps":b['of'],
     "constraints_checked":b['constraints_checked'],"disagreements":b['disagreements'],"differences_by_class":b.get('differences_by_class'),"exhaustive_within_bound":b['paths']==b['of'],"label":"bounded - never counted as proved"}
 cov['explanation'] = "proof part: %s of %s obligations (SMT + ownership analysis) on the traversal code discharged; bounded part (labelled bounded): the meaning of the emitted Rego is compared with the documented path semantics on every sampled path of at most three steps" % (cov.get('discharged'), cov.get('obligations'))
